@@ -59,7 +59,16 @@ package definition
 //@   requires [nonnil] d != nil
 //@   ensures [C17.defaults] forall p string :: (p in d.Pipelines) <==> old(p in d.Pipelines)
 //@   ensures [C17.concurrency] forall p string :: (p in d.Pipelines) ==> d.Pipelines[p].Concurrency == ite(old(d.Pipelines[p].Concurrency) == 0, 1, old(d.Pipelines[p].Concurrency)) && d.Pipelines[p].StartDelay == old(d.Pipelines[p].StartDelay) && d.Pipelines[p].QueueLimit == old(d.Pipelines[p].QueueLimit) && d.Pipelines[p].QueueStrategy == old(d.Pipelines[p].QueueStrategy) && d.Pipelines[p].Tasks == old(d.Pipelines[p].Tasks) && d.Pipelines[p].Env == old(d.Pipelines[p].Env)
+//@   modifies map(PipelinesMap)@[d.Pipelines]
 //@   loop 1 invariant [sofar] d.Pipelines == old(d.Pipelines) && (forall p string :: (p in d.Pipelines) <==> old(p in d.Pipelines)) && (forall p string :: (p in d.Pipelines) ==> d.Pipelines[p].Concurrency == ite($seen[p] && old(d.Pipelines[p].Concurrency) == 0, 1, old(d.Pipelines[p].Concurrency)) && d.Pipelines[p].StartDelay == old(d.Pipelines[p].StartDelay) && d.Pipelines[p].QueueLimit == old(d.Pipelines[p].QueueLimit) && d.Pipelines[p].QueueStrategy == old(d.Pipelines[p].QueueStrategy) && d.Pipelines[p].Tasks == old(d.Pipelines[p].Tasks) && d.Pipelines[p].Env == old(d.Pipelines[p].Env))
+
+//@ pure validDef(d PipelineDef) bool = d.Concurrency >= 1 && (d.QueueLimit == nil || *d.QueueLimit >= 0) && d.StartDelay >= 0 && !(d.StartDelay > 0 && d.QueueLimit != nil && *d.QueueLimit == 0) && depsOK(d)
+//@ func (*PipelinesDef).Load
+//@   requires [nonnil] d != nil && d.Pipelines != nil
+//@   ensures  [C17.mergeKeeps] forall k string :: old(k in d.Pipelines) ==> (k in d.Pipelines) && extEq(d.Pipelines[k], old(d.Pipelines[k]))
+//@   ensures  [C17.mergeValid] res == nil ==> forall k string :: (k in d.Pipelines) && !old(k in d.Pipelines) ==> validDef(d.Pipelines[k]) && d.Pipelines[k].SourcePath == path
+//@   ensures  [C17.mapSame] d.Pipelines == old(d.Pipelines)
+//@   loop 1 invariant [merge] d.Pipelines == old(d.Pipelines) && d.Pipelines != localDef.Pipelines && (localDef.Pipelines == nil || fresh(localDef.Pipelines)) && (forall k string :: old(k in d.Pipelines) ==> (k in d.Pipelines) && extEq(d.Pipelines[k], old(d.Pipelines[k]))) && (forall k string :: (k in d.Pipelines) && !old(k in d.Pipelines) ==> validDef(d.Pipelines[k]) && d.Pipelines[k].SourcePath == path)
 
 //@ func (*QueueStrategy).UnmarshalYAML
 //@   trusted the unmarshal callback is an injected function writing the local strategy name; only the mapping of names to constants is of interest and is read off the switch
